@@ -339,6 +339,7 @@ Script gen_c06(uint64_t seed, const std::string& tier, Rng& r)
         }
         return s;
     }
+    if (r.chance(0.25)) s.ops.push_back(send("setoption name Logfile value @LOG@"));
     int rounds = int(r.range(1, 3));
     bool back_to_back = r.chance(0.25);
     if (back_to_back) s.cfg.await_task_end = false;
@@ -499,6 +500,26 @@ Script gen_c09(uint64_t seed, const std::string& tier, Rng& r)
     for (int i = 0; i < ngo; ++i)
     {
         uint64_t kind = r.below(100);
+        if (kind >= 88 && kind < 92)
+        {
+            // searchmoves made only of castling moves (their packed encoding carries no squares)
+            static const char* cr[] = {"r3k2r/pppq1ppp/2npbn2/2b1p3/2B1P3/2NPBN2/PPPQ1PPP/R3K2R w KQkq - 0 12", "r3k2r/pppq1ppp/2npbn2/2b1p3/2B1P3/2NPBN2/PPPQ1PPP/R3K2R b KQkq - 0 12",
+                                       "r3k2r/8/R7/8/8/8/8/4K2R b Kkq - 6 10", "r3k2r/1R1p1ppp/8/8/8/8/8/5K2 b kq - 0 1", "4k3/8/8/8/8/8/r7/R3K2R w KQ - 0 1"};
+            PosSpec p;
+            p.start_fen = cr[r.below(5)];
+            p.game = ref::Game(ref::Board(p.start_fen));
+            g.set_position(p);
+            have_pos = true;
+            std::string sm;
+            for (auto& m : p.game.cur.legal())
+                if (ref::kind_of(p.game.cur.sq[m.from]) == ref::KIND_K && std::abs(ref::file_of(m.to) - ref::file_of(m.from)) == 2 && r.chance(0.7)) sm += " " + m.uci();
+            if (!sm.empty())
+            {
+                s.ops.push_back(send("go depth " + std::to_string(r.range(1, 4)) + " searchmoves" + sm));
+                s.ops.push_back(simple(OP_AWAIT_BEST));
+            }
+            continue;
+        }
         if (kind >= 92)
         {
             // an opening book is loaded and knows this position; searchmoves still binds
@@ -508,6 +529,12 @@ Script gen_c09(uint64_t seed, const std::string& tier, Rng& r)
             int ng = int(r.range(1, 3));
             for (int j = 0; j < ng; ++j)
             {
+                // restricted and unrestricted requests alternate: whatever one go leaves behind must not leak into the next
+                if (r.chance(0.5))
+                {
+                    s.ops.push_back(send("go depth " + std::to_string(r.range(1, 3))));
+                    s.ops.push_back(simple(OP_AWAIT_BEST));
+                }
                 s.ops.push_back(send("go depth " + std::to_string(r.range(1, 3)) + g.searchmoves_clause(0.4)));
                 s.ops.push_back(simple(OP_AWAIT_BEST));
             }
